@@ -122,8 +122,8 @@ def run(ctx):
     for n, c in enumerate(v_small + v_big):
         case = dict(kind="case", part="vhost", hist=False, areqs=all_a, rreqs=r_plain,
                     vhosts=with_clusters([{"doms": v, "rules": [CATCHALL]} for v in c]))
-        # every 8th configuration also through the handler (one cluster set) and the key/value index
-        cases.append(with_extras(case, n % 8 == 0, 1 if n % 8 == 0 else 0, r_plain))
+        # every 8th configuration also through the handler (one cluster set)
+        cases.append(with_extras(case, False, 1 if n % 8 == 0 else 0, r_plain))
     for l in r_small + r_big:
         case = dict(kind="case", part="route", hist=False, areqs=a_plain, rreqs=all_r,
                     vhosts=with_clusters([{"doms": [DEFAULT_DOM], "rules": l}]))
